@@ -3676,7 +3676,7 @@ bool CanettiGennaroJareckiKrawczykRabinDSS::Sign
 				{
 					err << "P_" << idx2dkg[i_in] << ": bad bar received from P_" << idx2dkg[j] << std::endl;
 					complaints.push_back(idx2dkg[j]);
-					mpz_set_ui(foo, 0L); // indicates an error
+					mpz_set_ui(bar, 0L); // indicates an error
 				}
 				// [BCCG15]: $\mathrm{Com}_{ck}(f_1; z_1) = A^x D$
 				mpz_set(ssprime, foo); // save $f_1$ for third ZNPoK
@@ -3714,7 +3714,7 @@ bool CanettiGennaroJareckiKrawczykRabinDSS::Sign
 				{
 					err << "P_" << idx2dkg[i_in] << ": bad bar received from P_" << idx2dkg[j] << std::endl;
 					complaints.push_back(idx2dkg[j]);
-					mpz_set_ui(foo, 0L); // indicates an error
+					mpz_set_ui(bar, 0L); // indicates an error
 				}
 				// [BCCG15]: $\mathrm{Com}_{ck}(f_2; z_2) = B^x E$
 				tmcg_mpz_fpowm(fpowm_table_g, rhs, g, foo, p);
@@ -3739,7 +3739,7 @@ bool CanettiGennaroJareckiKrawczykRabinDSS::Sign
 				{
 					err << "P_" << idx2dkg[i_in] << ": bad bar received from P_" << idx2dkg[j] << std::endl;
 					complaints.push_back(idx2dkg[j]);
-					mpz_set_ui(foo, 0L); // indicates an error
+					mpz_set_ui(bar, 0L); // indicates an error
 				}
 				// [BCCG15]: $\mathrm{Com}_{ck\prime}(f_1; z_3) = C^x D\prime$
 				mpz_powm(rhs, beta_i[j], ssprime, p);
@@ -4478,7 +4478,7 @@ bool CanettiGennaroJareckiKrawczykRabinDSS::Sign
 				{
 					err << "P_" << idx2dkg[i_in] << ": bad bar (in Step 2d) received from P_" << idx2dkg[j] << std::endl;
 					complaints.push_back(idx2dkg[j]);
-					mpz_set_ui(foo, 0L); // indicates an error
+					mpz_set_ui(bar, 0L); // indicates an error
 				}
 				mpz_set(ssprime, foo); // save $f_1$ for third ZNPoK
 				tmcg_mpz_fpowm(fpowm_table_g, rhs, g, foo, p);
@@ -4515,7 +4515,7 @@ bool CanettiGennaroJareckiKrawczykRabinDSS::Sign
 				{
 					err << "P_" << idx2dkg[i_in] << ": bad bar (in Step 2d) received from P_" << idx2dkg[j] << std::endl;
 					complaints.push_back(idx2dkg[j]);
-					mpz_set_ui(foo, 0L); // indicates an error
+					mpz_set_ui(bar, 0L); // indicates an error
 				}
 				tmcg_mpz_fpowm(fpowm_table_g, rhs, g, foo, p);
 				tmcg_mpz_fpowm(fpowm_table_h, lhs, h, bar, p);
@@ -4539,7 +4539,7 @@ bool CanettiGennaroJareckiKrawczykRabinDSS::Sign
 				{
 					err << "P_" << idx2dkg[i_in] << ": bad bar (in Step 2d) received from P_" << idx2dkg[j] << std::endl;
 					complaints.push_back(idx2dkg[j]);
-					mpz_set_ui(foo, 0L); // indicates an error
+					mpz_set_ui(bar, 0L); // indicates an error
 				}
 				mpz_powm(rhs, beta_i[j], ssprime, p);
 				tmcg_mpz_fpowm(fpowm_table_h, lhs, h, bar, p);
